@@ -11,6 +11,8 @@ import (
 	"sort"
 	"strings"
 	"time"
+
+	"golang.org/x/tools/go/ssa"
 )
 
 type finding struct {
@@ -166,6 +168,7 @@ type propRun struct {
 	cachedDup  int
 	layout     int
 	asmAssumptions []string
+	callers    []string // function@cfg outside the cone, generated only for the requires obligations at calls of root functions
 }
 
 func runProperty(prop, tier, repo string, cs *Contracts, timeout int, verbose bool) *propRun {
@@ -218,6 +221,7 @@ func runProperty(prop, tier, repo string, cs *Contracts, timeout int, verbose bo
 		notes     []string
 		trusted   map[string]string
 		funcs     []string
+		callers   []string
 		obls      []*Obligation
 	}
 	outs := make([]*cfgOut, len(configs))
@@ -318,6 +322,71 @@ func runProperty(prop, tier, repo string, cs *Contracts, timeout int, verbose bo
 					}
 				}
 			}
+			// The property's clauses on a root function are proved under the root's requires, so the requires
+			// obligations at the root's call sites belong to the argument as well: generate the direct callers that
+			// are under contract but outside the cone, and keep only those obligations.
+			rootCall := []string{}
+			rootName := map[string]bool{}
+			for k := range roots {
+				rootCall = append(rootCall, "@call["+shortFn(k)+":")
+				if f0 := p.funcs[k]; f0 != nil {
+					rootName[f0.Name()] = true
+				}
+			}
+			var callers []string
+			for k, ct := range cs.Funcs {
+				if done[k] || ct.IsVar || ct.Trusted {
+					continue
+				}
+				fn := p.funcs[k]
+				if fn == nil || len(fn.Blocks) == 0 {
+					continue
+				}
+				calls := false
+				for _, b := range fn.Blocks {
+					for _, in := range b.Instrs {
+						c, ok := in.(*ssa.Call)
+						if !ok {
+							continue
+						}
+						com := c.Common()
+						if com.IsInvoke() {
+							calls = calls || rootName[com.Method.Name()]
+						} else if f0, ok := com.Value.(*ssa.Function); ok {
+							calls = calls || roots[FuncKey(f0)]
+						}
+					}
+				}
+				if calls {
+					callers = append(callers, k)
+				}
+			}
+			sort.Strings(callers)
+			for _, k := range callers {
+				res := VerifyFunc(p, p.funcs[k])
+				n := 0
+				for _, o := range res.Obls {
+					if o.Kind != "pre" || o.Vacuity {
+						continue
+					}
+					for _, rc := range rootCall {
+						if strings.Contains(o.Name, rc) {
+							out.obls = append(out.obls, o)
+							n++
+							break
+						}
+					}
+				}
+				if n > 0 {
+					out.callers = append(out.callers, k+"@"+cfg.name)
+					for _, e := range res.SpecErrs {
+						out.genErrors = append(out.genErrors, fmt.Sprintf("%s@%s: %s", k, cfg.name, e))
+					}
+					for _, e := range res.Missing {
+						out.genErrors = append(out.genErrors, fmt.Sprintf("%s@%s: contract refers to %s which does not exist in the function", k, cfg.name, e))
+					}
+				}
+			}
 		}()
 	}
 	wgc.Wait()
@@ -333,6 +402,7 @@ func runProperty(prop, tier, repo string, cs *Contracts, timeout int, verbose bo
 		for _, f := range out.funcs {
 			r.funcs[f] = true
 		}
+		r.callers = append(r.callers, out.callers...)
 		for _, o := range out.obls {
 			h := o.QueryHash()
 			if prev, ok := seenHash[h]; ok {
@@ -545,6 +615,7 @@ func (r *propRun) report(prop, tier string, seed int, evPath string, noEvidence 
 		"checker_cmd":              fmt.Sprintf("/verif/bin/gocv check --prop %s --tier %s", prop, tier),
 		"trusted_base":             []string{"gocv (this repository, /verif/gocv)", "golang.org/x/tools/go/ssa v0.29.0", "go/types", "z3 4.8.12", "z3 5.1.0", "cvc5 1.0.3"},
 		"functions_under_contract": fnames,
+		"callers_checked_for_root_preconditions": r.callers,
 		"by_backend":               r.byBackend,
 		"solver_time_s":            round3(r.solverTime),
 		"known_failing":            known,
